@@ -207,9 +207,10 @@ add("C14", "client handshake",
 HS_STUBS = STUB_COMMON + ["net/http ResponseWriter/Hijacker/ResponseController/Error -> recorder models (harness/models_http.go)", "crypto/sha1 -> uninterpreted function (congruent, collision-free)", "net/url.Parse -> answers from the harness's template knowledge"]
 
 add("C13", "default origin policy (reduced)",
-    [H("vfH_fold_diff", ["fold-diff-end"], 300, {"N": 3}), H("vfH_origin_wiring", ["origin-accepted", "origin-refused"], 300), H("vfH_origin_urls", ["origin-url-accepted", "origin-url-refused"], 300), H("vfH_upgrade_logic", ["upgrade-success", "upgrade-refused"], 600, {"focus": 5}), TWIN("vfH_fold_diff"), TWIN("vfH_origin_wiring"), TWIN("vfH_origin_urls")],
-    [H("vfH_fold_diff", ["fold-diff-end"], 3000, {"N": 4})],
+    [H("vfH_fold_diff", ["fold-diff-end"], 300, {"N": 3}), H("vfH_origin_wiring", ["origin-accepted", "origin-refused"], 300), H("vfH_origin_urls", ["origin-url-accepted", "origin-url-refused"], 300), H("vfH_origin_urls", ["origin-url-accepted", "origin-url-refused"], 400, {"sym": 2}), H("vfH_origin_urls", ["origin-url-accepted", "origin-url-refused"], 500, {"sym": 2, "rep": 1}), H("vfH_upgrade_logic", ["upgrade-success", "upgrade-refused"], 600, {"focus": 5}), TWIN("vfH_fold_diff"), TWIN("vfH_origin_wiring"), TWIN("vfH_origin_urls")],
+    [H("vfH_fold_diff", ["fold-diff-end"], 3000, {"N": 4}), H("vfH_origin_urls", ["origin-url-accepted", "origin-url-refused"], 3000, {"sym": 3})],
     ["equalASCIIFold(s, t) against the byte-wise reference (equal length, bytes equal after mapping A-Z to a-z only) for every s of <= 3 (thorough 4) arbitrary bytes - covering U+212A (E2 84 AA), U+017F (C5 BF), overlong and invalid sequences - and every ASCII t of <= 3 (4) bytes, in both argument orders",
+     "real url.Parse on arbitrary bytes: 2 (thorough 3) consecutive characters - or 1 character - of the Origin's host replaced by 2 (3) arbitrary bytes - at the start, inside, and right before the port / end - for 5 Hosts (name, name:port, IPv6 literal with port, IPv4, a name with the letters U+017F and U+212A fold to): every delimiter, percent sign, control byte, non-ASCII byte and look-alike the real parser can meet there; upgraded iff the RFC 3986 reference calls the origin's authority equal to Host under ASCII folding, otherwise 403 without hijack",
      "real url.Parse: see 'outside' for the template grammar; verdict compared with an RFC 3986 authority extractor written for the harness",
      "wiring: with CheckOrigin nil, Upgrade is executed with Origin hosts of 4 and 6 arbitrary bytes (all Unicode look-alikes of that length, e.g. U+212A, U+017F) against short ASCII Hosts, plus missing / extra port and suffix look-alike templates: upgraded iff the reference says equal, otherwise 403 without hijacking"],
     ["origins outside the template grammar of vfH_origin_urls (there the REAL net/url.Parse is executed from its SSA: 4 Hosts incl. an IPv6 literal and an IPv4 address x scheme x 5 userinfo shapes incl. 'example.com@' tricks x 9 host variants (case, removed / different / empty port, other host, added label before / after, suffix look-alike, [::1]) x 5 path/query/fragment tails); arbitrary-byte origins use the modelled parser", "hosts longer than the bound"],
